@@ -163,7 +163,7 @@ def rseqOp (args : List String) : String :=
 /-! ### handler side: arbitrary requests -/
 
 def jsonTable (d : Bytes) : Bool := d == [123, 125]                          -- "{}"
-def trailerTable (d : Bytes) : Bool := d == [97, 58, 32, 98, 13, 10]          -- "a: b\r\n"
+def trailerTable (d : Bytes) : Bool := d == [97, 58, 32, 98, 13, 10] || d == []   -- "a: b\r\n"; the empty block fails with io.EOF inside
 def tableParsers : SpecialParsers := { jsonOK := jsonTable, trailerOK := trailerTable }
 
 def parseTail' (s : String) : Option RErr :=
